@@ -71,3 +71,16 @@ Definition check_protocol (cs : bool * bool * bool * (bool * bool * bool * bool)
    | Returned (Some _) => negb o_none
    | Raised => true
    end).
+
+(* second pass: on the object graph of a real instance, every write path of
+   its row of Model.inplace_table that exists in the instance must be owned
+   (the hypothesis paths_owned of C04_not_inplace_table) *)
+Definition check_paths (cs : string * obj) : bool :=
+  let '(name, x) := cs in
+  match assoc name inplace_table with
+  | Some l => forallb (fun pk => match lookup (fst pk) x with
+                                 | Some (Node _ _ _) => path_copied MCopy (fst pk) x
+                                 | _ => true
+                                 end) l
+  | None => false
+  end.
